@@ -200,3 +200,36 @@ def _(c):
     c.ensures("near(self.magnitude.value, magnitude * f)", "only-the-factors-of-the-dropped-units-are-folded-in")
     c.ensures("self.baseunits.expression == kept", "the-dimensionless-unit-stays")
     c.no_raise()
+
+
+# ---- algebra of unit lists: a power multiplies EVERY exponent (dimensionless table units and cancelling pairs included), products add
+#      and quotients subtract them -- for every integer power / pair of exponents --------------------------------------------------------
+UNIT_LISTS = [{"m": 1}, {"%": 1}, {"m": 1, "k:m": -1}, {"[pi]": 2}, {"rad": 1, "s": -1}, {"%": 1, "ppth": -1}, {"k:g": (1, 2), "c:m": (-3, 2)}, {}]
+
+
+@spec
+def exps_of(bu):
+    return {k: (f.num, f.den) for k, f in bu.baseunits.items()}
+
+
+def _units(b, d):
+    return b.new(BU, b.dict({k: (b.new("units/fraction.py::Fraction", *v) if isinstance(v, tuple) else v) for k, v in d.items()}))
+
+
+for opname in ("__mul__", "__truediv__"):
+    @contract(f"{BU}.{opname}", ["C06"], name=f"BaseUnits.{opname}")
+    def _(c, opname=opname):
+        c.bound = "the listed unit lists (plain, dimensionless table units, cancelling pairs, fractional exponents); the power is any non-zero integer"
+        for d in UNIT_LISTS:
+            def pre(b, d=d):
+                u = _units(b, d)
+                return dict(args=[u, b.int("p")], env=dict(u=u, keys=list(d.keys())))
+            c.scenario("*".join(f"{k}^{v}" for k, v in d.items()) or "1", pre)
+        c.requires("other != 0" if opname == "__mul__" else "div != 0")
+        if opname == "__mul__":
+            c.ensures("list(result.baseunits.keys()) == keys and all([result.baseunits[k].den != 0 and result.baseunits[k].num * self.baseunits[k].den == other * self.baseunits[k].num * result.baseunits[k].den for k in keys])", "every-exponent-times-the-power")
+        else:
+            c.ensures("list(result.baseunits.keys()) == keys and all([result.baseunits[k].den != 0 and div * result.baseunits[k].num * self.baseunits[k].den == self.baseunits[k].num * result.baseunits[k].den for k in keys])", "every-exponent-over-the-divisor")
+        c.ensures("exps_of(u) == old(exps_of(u))", "operand-keeps-its-exponents")
+        c.fresh("result.baseunits", "result-dict-is-fresh")
+        c.no_raise()
